@@ -59,6 +59,9 @@ def r02_1(ctx: Ctx) -> None:
             continue
         n_blocks += 1
         env: Dict[str, Word] = {"stat.S_IMODE(fstat.st_mode)": mode_field}
+        for x in ast.walk(ast.Module(body=list(body), type_ignores=[])):
+            if isinstance(x, ast.Call) and dotted(x.func) == "stat.S_IMODE":
+                env[norm(x)] = mode_field  # the permission bits of whatever stat result is used (its provenance is checked below)
         be = BitEval(env, const_lookup=const_lookup, func=f)
         word: Optional[Word] = None
         empty = None
@@ -95,6 +98,7 @@ def r02_1(ctx: Ctx) -> None:
                   f"unix-extension bit={unix}, permission bits={perm}; expected a {kind} with the 12 mode bits at bits 16..27", construct=f"attributes of {kind}: {norm(first.value)}")
         # names used: only the freshly stat'ed result
         used = {n.id for s in body if (isinstance(s, (ast.Assign, ast.AugAssign)) and _is_key(getattr(s, 'target', None) or s.targets[0], "attributes")) for n in ast.walk(s.value) if isinstance(n, ast.Name)}
+        # the time stamps stored after the kind branches read `fstat` as well: in a dereference arm it must be the target's
         odd = used - {"stat", "fstat", "getattr", "FILE_ATTRIBUTE_UNIX_EXTENSION", "FILE_ATTRIBUTE_WINDOWS_MASK"}
         if any(cd == "dereference" and pol for cd, pol in facts):
             restat = [s for s in walk(f.node) if isinstance(s, ast.Assign) and norm(s.targets[0]) == "fstat" and isinstance(s.value, ast.Call) and norm(s.value.func) == "target.stat"]
@@ -270,7 +274,41 @@ def r02_5(ctx: Ctx) -> None:
         ctx.check(ok, "R02.5", f, dr[0], "directory arm archives the directory itself (so empty directories survive)", "the directory arm does not archive the directory entry itself", construct="_writeall dir entry")
 
 
+def r02_6(ctx: Ctx) -> None:
+    """time/mode values of the post-pass are tested for None, not for truthiness (mtime 0.0 / mode 0 are legal)."""
+    f = shared.szf(ctx, "_extract")
+    sinks = [c for c in q.calls(f) if dotted(c.func) == "os.utime" or attr_tail(c) == "chmod"]
+    for c in sinks:
+        for cd, pol in q.facts_at(f, c):
+            if isinstance(cd, ast.Name) and pol:
+                vals = q.assigned_values(f, cd.id)
+                timeish = any(isinstance(x, ast.Call) and attr_tail(x) in ("totimestamp", "get") for v in vals for x in ast.walk(v)) or cd.id in ("lastmodified", "lastwritetime", "st_mode")
+                if timeish:
+                    ctx.fail("R02.6", f, c, f"`{cd.id}` is tested for truthiness before {norm(c.func)}: a member whose modification time is exactly the epoch (0.0) or whose mode is 0 "
+                                            "is not restored", construct=f"truthiness guard {cd.id}")
+    ctx.ok("R02.6", f"{len(sinks)} utime/chmod calls: value guards are None-tests")
+    # dereferenced entries take their time stamps from the re-stat'ed target as well
+    mk = shared.szf(ctx, "_make_file_info")
+    cfgm = cfg_of(mk.node)
+    times = [n for n in walk(mk.node) if isinstance(n, ast.Assign) and _is_key(n.targets[0], "lastwritetime")]
+    for t in times:
+        src = [x for x in ast.walk(t.value) if isinstance(x, ast.Attribute) and x.attr == "st_mtime"]
+        ok = bool(src) and all(isinstance(x.value, ast.Name) for x in src)
+        if ok:
+            var = src[0].value.id
+            # every dereference arm re-assigns that variable from target.stat()
+            deref_arms = [n for n in walk(mk.node) if isinstance(n, ast.If) and norm(n.test) == "dereference"]
+            for arm in deref_arms:
+                re_ = [s_ for s_ in arm.body if isinstance(s_, ast.Assign) and norm(s_.targets[0]) == var and isinstance(s_.value, ast.Call) and norm(s_.value.func).endswith(".stat")]
+                ctx.check(bool(re_), "R02.6", mk, arm, "dereferenced entry: the stat result used for the time stamps is the target's",
+                          f"a dereference arm does not re-assign `{var}` from target.stat(): the entry gets the LINK's own modification time instead of the target's")
+
+
 def run(ctx: Ctx) -> None:
+    r02_6(ctx)
+    from . import c07 as _c07, c03 as _c03
+    _c07.r07_1(ctx, rule="R02.7")
+    _c03.r03_6(ctx, _c03.extraction_roots(ctx))
     r02_1(ctx)
     r02_2(ctx)
     r02_3(ctx)
